@@ -169,5 +169,44 @@ CHECKS["C03"] = _srv(
     "non-trivial = a defective request was judged in a history in which an allocation exists",
     _SRV_NOTE + " Cryptographic forgery is out of scope; MAC collisions are not searched.")
 
+CHECKS["C20"] = {
+    "level": "exploration",
+    "claim": ("The three bundled generators run on simnet's transport.Net with a scripted random source: generated (MinPort, MaxPort, "
+              "MaxRetries, IPv4/IPv6, wildcard/specific listen address, pre-occupied ports) configurations and allocate/close "
+              "histories, plus the exhaustive edge grid of ranges of width <= 8 (incl. MaxPort = 65535 and single-port ranges) x "
+              "every draw. Oracles: fresh open socket, advertised IP/port truthful, requested port honoured, every bind attempt and "
+              "result inside [MinPort, MaxPort] and equal to MinPort+draw over a draw of exactly the range width, no shared port, "
+              "clean failure (nothing left open) when the range is full, Intn never called with n <= 0."),
+    "level_note": "Trusted: simnet's bind semantics (a port in use cannot be bound again). SO_REUSEPORT behaviour of real kernels on the TCP listener path is not modelled.",
+    "technique": "property-based testing: rapid-generated configurations and allocate/close histories + exhaustive edge grid, validity predicates over results and over every bind attempt",
+    "rule": ("a case is a generator configuration + op history; non-trivial = range width <= 4 or MaxPort = 65535 or pre-occupied "
+             "ports (range generator), >= 2 ops (static / pass-through); distinct by hash of the case"),
+    "assumptions": [],
+    "stages": [
+        {"name": "generators", "pkg": "pure", "run": "^TestC20$",
+         "quick": {"shards": 2, "checks": 15000, "timeout_s": 300},
+         "thorough": {"shards": 16, "checks": 150000, "timeout_s": 1500}},
+    ],
+}
+
+CHECKS["C17"] = {
+    "level": "exploration",
+    "claim": ("Both credential generators and their handlers under the bubble's virtual clock: generated secrets, user names "
+              "(with ':', empty, unicode), realms and durations (negative, 0 .. 10 years), generation at a sub-second offset, "
+              "validation at every whole second in [expiry-5, expiry+5] plus drawn instants; every single-character substitution, "
+              "insertion and deletion of username and password; passwords from another secret / another username. Oracles "
+              "independent of the library: expiry = floor(now+duration), password = base64(HMAC-SHA1(secret, username)), key = "
+              "MD5(username:realm:password), ok <=> instant <= expiry."),
+    "level_note": "Trusted: crypto/hmac, crypto/sha1, crypto/md5 of the Go standard library; virtual clock of testing/synctest. End-to-end authentication through a real server and client is exercised by the C14 world with generated credentials.",
+    "technique": "property-based testing under virtual time: rapid-generated credential scenarios, exhaustive single-character mutations, reference recomputation of password and key",
+    "rule": "a case is (kind, secret, user, realm, duration, offset, probe instants); non-trivial = the probe window contains instants at which the credential is valid (duration >= -5 s); distinct by hash of the case",
+    "assumptions": [],
+    "stages": [
+        {"name": "credentials", "pkg": "pure", "run": "^TestC17$",
+         "quick": {"shards": 4, "checks": 1500, "timeout_s": 300},
+         "thorough": {"shards": 16, "checks": 20000, "timeout_s": 1500}},
+    ],
+}
+
 _NOT_BUILT = "check not built yet in this round (planned, see DESIGN.md section 4)"
 PENDING = {("C%02d" % i): _NOT_BUILT for i in range(1, 21)}
